@@ -1,13 +1,25 @@
 ----------------------------- MODULE EwLsqCases -----------------------------
 (* C13 leg R: the law cases (weights kind x delta fixed/free x method x sample class x   *)
 (* n x replicate) enumerated by TLC; the driver draws the sample, fits, and Trace_C13     *)
-(* judges the laws.                                                                       *)
+(* judges the laws.  A fixed delta rotates over moderate, tiny and huge values (the       *)
+(* linearised positions must be accurate over the whole range).                           *)
 EXTENDS EwLsqOps, TLC, Json
 CONSTANTS NSet, Reps
 VARIABLE c
-SampleClasses == {"ew", "weibull", "lognormal", "uniform", "zeros", "ties"}
-LawCases == [wk : GoodWeights, fixed : BOOLEAN, method : FitMethods, cls : SampleClasses,
-             n : NSet, rep : Reps]
+SampleClassSeq == <<"ew", "weibull", "lognormal", "uniform", "zeros", "ties", "integers">>
+WeightSeq == <<"none", "linear", "quadratic", "cubic", "array">>
+MethodSeq == <<"lsq", "wlsq">>
+FixedDeltas == <<"0.7", "0.001", "1.0", "50", "2.5", "0.01", "1.6", "10000">>
+Pos(seq, v) == CHOOSE k \in 1..Len(seq) : seq[k] = v
+SetOfSeq(seq) == {seq[k] : k \in 1..Len(seq)}
+FixedDeltaOf(x) ==
+    IF ~x.fixed THEN "free"
+    ELSE FixedDeltas[((Pos(SampleClassSeq, x.cls) + 3 * Pos(WeightSeq, x.wk) + 5 * Pos(MethodSeq, x.method)
+                       + (x.n % 7) + x.rep) % Len(FixedDeltas)) + 1]
+Base == [wk : SetOfSeq(WeightSeq), fixed : BOOLEAN, method : SetOfSeq(MethodSeq),
+         cls : SetOfSeq(SampleClassSeq), n : NSet, rep : Reps]
+LawCases == {[wk |-> x.wk, fixed |-> x.fixed, method |-> x.method, cls |-> x.cls, n |-> x.n, rep |-> x.rep,
+              fd |-> FixedDeltaOf(x)] : x \in Base}
 Init == c \in LawCases
 Next == UNCHANGED c
 Spec == Init /\ [][Next]_c
